@@ -51,7 +51,7 @@ def run(pid, cmd, argv, trusted, known_classifiers):
     if rc != 0:
         c.log("extraction/ocaml build failed:\n" + out[-3000:])
         c.proof_break = c.proof_break or {"kind": "extraction-failed", "log": out[-2000:]}
-    cases = c.harness(cmd) if rc == 0 else None
+    cases = c.harness(cmd, timeout=900) if rc == 0 else None
     fails, n, agree, inconcl, twins, unspec, panics = [], 0, 0, 0, 0, 0, []
     twin_ok = {}
     class_diff = 0
@@ -110,12 +110,10 @@ def run(pid, cmd, argv, trusted, known_classifiers):
         def pre(f):
             if twin_ok.get((f[1], "notco")):
                 return "tco-by-name"
-            if twin_ok.get((f[1], "noalias")):
-                return "append-aliasing"
             return None
         unknown = [f for f in fails if pre(f) is None]
         chosen = unknown[:6]
-        for fid in ("tco-by-name", "append-aliasing"):
+        for fid in ("tco-by-name",):
             chosen += [f for f in fails if pre(f) == fid][:2]
         rest = [f for f in fails if f not in chosen]
         fails = chosen + rest
